@@ -14,6 +14,7 @@ sequence up to a length bound replayed on a fresh application (validates the mer
 from __future__ import annotations
 
 import collections
+import functools
 import ipaddress
 import itertools
 import json
@@ -98,6 +99,7 @@ def _toascii(label: str):
     return a.decode("ascii").lower()
 
 
+@functools.lru_cache(maxsize=None)
 def canon_name(name: str):
     """Canonical form of a host name without port: ('ip', address) / ('dns', a.b.c) / None (malformed)."""
     if name.startswith("["):
@@ -133,9 +135,9 @@ def split_port(host: str):
         if rest.startswith(":") and ":" not in rest[1:]:
             return name, rest[1:]
         return None
+    # not an address literal: everything after the first colon is "the port"; whether a garbage port
+    # (":x", ":80:80") makes the host unacceptable is not something the statement decides -> either verdict
     name, sep, port = host.partition(":")
-    if ":" in port:
-        return None
     return name, (port if sep else None)
 
 
@@ -516,18 +518,20 @@ def check_dispatch(R, d, case):
         if answered and not g["host"]:
             R.violation(f"dispatch:{cmd}-answered-untrusted-host", rec)
         if answered and cmd != "console" and secret != "right":
-            R.violation(f"dispatch:{cmd}-answered-without-secret", rec)
+            # the statement asks the PIN endpoints only for a trusted Host (the secret guards evaluation);
+            # the current dispatch also wants the secret - noted, not demanded
+            R.use("B:pin-endpoint-answered-without-secret")
         if answered and cmd == "console" and not d.evalex:
             R.violation("dispatch:console-answered-evalex-off", rec)
     if issued:
         R.use("B:cookie-issued")
-        if not (cmd == "pinauth" and g["host"] and secret == "right"):
+        if not (cmd == "pinauth" and g["host"]):
             R.violation("dispatch:pin-cookie-issued-outside-gates", rec)
     if logged_pin:
         R.use("B:pin-logged")
-        if not (cmd == "printpin" and g["host"] and secret == "right"):
+        if not (cmd == "printpin" and g["host"]):
             R.violation("dispatch:pin-logged-outside-gates", rec)
-    if counter != 0 and not (cmd == "pinauth" and g["host"] and secret == "right"):
+    if counter != 0 and not (cmd == "pinauth" and g["host"]):
         R.violation("dispatch:failure-counter-moved-outside-gates", rec)
     after = d.frozen()
     if after != before:
@@ -688,8 +692,7 @@ def run_history(hist, attempt):
     m = (0, False)
     for a in hist:
         a = tuple(a)
-        now, slept = FakeTime.now, FakeTime.slept
-        out = pin_request_keep(d, a)
+        pin_request_keep(d, a)
         m, _ = ref_step(m, a)
     cnt = d.app._failed_pin_auth.value
     out = pin_request_keep(d, tuple(attempt))
@@ -724,12 +727,14 @@ def run_C_seqs(unit, R, tier):
         R.use("C:seqs")
 
 
-def run_C_long(R, tier):
+def run_C_long(R, tier, shard=0, nshards=1):
     """Attempt sequences longer than the merged bound, unmerged: for every n <= 14 (the quantifier's length) wrong
     PINs followed by each attempt kind, and the same after every mix position of one bad-hash cookie."""
     d = Dbg(evalex=True, pin_on=True)
     fillers = [("absent", "wrong"), ("expired", "wrong"), ("malformed", "wrong")]
     for n in range(0, 15):
+        if n % nshards != shard:
+            continue
         for filler in fillers:
             for extra_at in [None] + list(range(n + 1)):
                 seq = [filler] * n
@@ -758,15 +763,14 @@ def run_C_long(R, tier):
 
 def units(tier):
     T = tier == "thorough"
-    u = []
+    u = [("Cgraph",)] + [("Clong", i, 5) for i in range(5)]          # the unsplittable unit first
     u += [("A", 1, 0, 1), ("A", "lit", 0, 2), ("A", "lit", 1, 2)]
     u += [("A", 2, i, 8 if T else 4) for i in range(8 if T else 4)]
-    n3 = 96 if T else 24
+    n3 = 192 if T else 48
     u += [("A", 3, i, n3) for i in range(n3)]
     for evalex in (True, False):
         for pin_on in (True, False):
             u += [("B", evalex, pin_on, i, 6) for i in range(6)]
-    u += [("Cgraph",), ("Clong",)]
     if T:
         u += [("Cseq", "full", 5, i, 32) for i in range(32)]
         u += [("Cseq", "reduced", 7, i, 32) for i in range(32)]
@@ -785,7 +789,7 @@ def run_unit(unit, R, tier):
     elif k == "Cgraph":
         run_C_graph(R, tier)
     elif k == "Clong":
-        run_C_long(R, tier)
+        run_C_long(R, tier, unit[1], unit[2])
     elif k == "Cseq":
         run_C_seqs(unit, R, tier)
     else:
